@@ -9,7 +9,7 @@ import re
 import shutil
 import subprocess
 
-from ckl.errors import CklRuntimeError
+from ckl.errors import CklRuntimeError, CklSyntaxError
 from ckl.parser import parse_script
 from ckl.date import to_oa_date, to_date
 from ckl.values import (
@@ -3551,7 +3551,16 @@ class FuncS(ValueFunc):
                 else:
                     digits = int(spec[idx4+1:] or "0")
                     width = int(spec[0:idx4] or "0")
-            node = parse_script(variable, pos.filename)
+            try:
+                node = parse_script(variable, pos.filename)
+            except CklSyntaxError as e:
+                # like eval: a placeholder that does not parse is an error
+                # of the running program, which catch can intercept
+                raise CklRuntimeError(
+                    ValueString("ERROR"),
+                    f"Cannot evaluate expression '{variable}' ({e.msg})",
+                    pos,
+                )
             value = node.evaluate(environment).asString().value
             if base != 10:
                 value = f"{int(value):x}"
